@@ -430,6 +430,13 @@ impl Dev {
         b
     }
 
+    /// A call that also uses the transmit side of the device is not stuck in a read loop: the
+    /// "blocked forever" detection of the receive side (see `arrival`) starts counting afresh.
+    /// (A sender may legitimately look at its receiver while the transmitter is busy.)
+    fn tx_activity(&self) {
+        self.rx.borrow_mut().starve = 0;
+    }
+
     /// Transmit-side fault decision for the next write/transmit call.
     fn tx_fault(&self, is_serial_write: bool, len: usize) -> TxFault {
         let (pol, call) = {
@@ -562,6 +569,7 @@ impl embedded_hal::serial::Write<u8> for Dev {
 
     fn write(&mut self, word: u8) -> nb::Result<(), ()> {
         let _g = SimDomain::enter();
+        self.tx_activity();
         let pending = self.tx.borrow().tx_wb_left.is_some();
         let fault = if pending {
             TxFault::None
@@ -586,6 +594,7 @@ impl embedded_hal::serial::Write<u8> for Dev {
 
     fn flush(&mut self) -> nb::Result<(), ()> {
         let _g = SimDomain::enter();
+        self.tx_activity();
         // a transmitter that is still shifting out reports would-block here too
         let (wb, left) = {
             let w = self.tx.borrow();
@@ -664,6 +673,7 @@ impl bxcan::Instance for Dev {
 
     fn sim_transmit(&mut self, frame: &BxFrame) -> nb::Result<Option<BxFrame>, Infallible> {
         let _g = SimDomain::enter();
+        self.tx_activity();
         let pending = self.tx.borrow().tx_wb_left.is_some();
         let fault = if pending {
             TxFault::None
@@ -811,6 +821,7 @@ impl io::Read for Dev {
 impl io::Write for Dev {
     fn write(&mut self, buf: &[u8]) -> io::Result<usize> {
         let _g = SimDomain::enter();
+        self.tx_activity();
         if buf.is_empty() {
             return Ok(0);
         }
@@ -871,6 +882,7 @@ impl io::Write for Dev {
 
     fn flush(&mut self) -> io::Result<()> {
         let _g = SimDomain::enter();
+        self.tx_activity();
         let (pol, call) = {
             let w = self.tx.borrow();
             (w.tx.clone(), w.flush_calls)
